@@ -2,6 +2,7 @@ package c06
 
 import (
 	"bytes"
+	"fmt"
 
 	"github.com/nspcc-dev/neo-go/pkg/core/block"
 	"github.com/nspcc-dev/neo-go/pkg/core/transaction"
@@ -34,6 +35,7 @@ type mutant struct {
 	cont     string // who signs the continuation after acceptance: "" validators | "acct" account 0 | "none" nobody can
 	skip     string // non-empty: the entry does not apply to this state (reason)
 	known    string // key of a known finding this shape runs into (verdict not asserted when listed)
+	labels   []string
 }
 
 type entry struct {
@@ -44,6 +46,7 @@ type entry struct {
 	blockOnly bool // no AddHeaders sub-mode
 	multiOnly bool // needs more than one validator
 	why       string
+	weight    int // relative frequency in the single check (0 = 1)
 	mk        func(w *world, cr Corruption) mutant
 	special   func(w *world, cr Corruption, o *vt.Obs) error // own flow instead of mk
 }
@@ -59,7 +62,9 @@ func kindsFor(srih, multi bool) []string {
 		if e.srihOnly && !srih || e.multiOnly && !multi {
 			continue
 		}
-		out = append(out, e.name)
+		for i := 0; i < max(1, e.weight); i++ {
+			out = append(out, e.name)
+		}
 	}
 	return out
 }
@@ -288,8 +293,17 @@ func init() {
 			}
 			return m
 		}})
-	reg(&entry{name: "sr-next-header-mismatch", srihOnly: true, blockOnly: true, special: runNextHeaderMismatch,
-		why: "the node already holds the headers of B and of a validator-signed N+2 whose previous state root is not the one B produces; B is then refused after having been executed: that refusal must leave no trace"})
+	for a := 1; a <= 3; a++ {
+		a := a
+		name := "sr-next-header-mismatch"
+		if a > 1 {
+			name = fmt.Sprintf("sr-next-header-mismatch-%dahead", a)
+		}
+		reg(&entry{name: name, srihOnly: true, blockOnly: true, weight: 3,
+			special: func(w *world, cr Corruption, o *vt.Obs) error { return runNextHeaderMismatch(w, cr, o, name, a) },
+			why: fmt.Sprintf("the node's header chain is %d header(s) ahead of the block under test (B, or B2 after B went in); the header right after that block is validly signed but its previous state root is not the one the block produces%s: the block is executed, then refused, and the refusal must leave no trace",
+				a, map[bool]string{true: " (it is a middle header: more headers follow it)", false: " (it is the last known header)"}[a > 1])})
+	}
 	// ------------------------------------------------------------------ witness (header untouched: same hash as B)
 	wit := func(name, why string, exp verdict, f func(w *world, cr Corruption, b *block.Block) string) {
 		multi := name == "wit-reordered" || name == "wit-dup-sig" || name == "wit-extra-sig" || name == "wit-other-sigset"
@@ -547,13 +561,37 @@ func init() {
 			}
 			return []*transaction.Transaction{w.cV, w.cTother}, ""
 		})
-	withTx("tx-conflict-onchain", "contains V although an on-chain transaction of the same signer names V in its Conflicts attribute", true, "",
-		func(w *world, cr Corruption) ([]*transaction.Transaction, string) {
-			if w.setupV == nil {
-				return nil, "no setup block / setup tx not admitted"
+	for t, kind := range ocKinds {
+		t, kind := t, kind
+		why := [...]string{
+			"contains A although an on-chain transaction names A in a Conflicts attribute and shares A's sender as a signer",
+			"as above, the common signer is A's SECOND signer",
+			"as above, the common signer is A's THIRD signer",
+			"control: an on-chain transaction names A in a Conflicts attribute but has no signer in common with A",
+		}[t] + " (position of the common signer on chain, number of Conflicts attributes 1..3 and which one names A are drawn)"
+		tx(kind, why, true, func(w *world, cr Corruption) mutant {
+			oc := w.oc[kind]
+			if oc == nil {
+				return mutant{skip: "no setup block / on-chain transaction not admitted"}
 			}
-			return []*transaction.Transaction{w.setupV}, ""
+			if !oc.sibOK {
+				return mutant{skip: "crafting accounts cannot pay"}
+			}
+			nb := txMut(w, func(txs []*transaction.Transaction) []*transaction.Transaction {
+				return insertAt(txs, cr.J, cloneTx(oc.A))
+			})
+			m := mutant{raw: encBlock(nb), expB: vReject, expH: vAccept, hdrValid: true, labels: append([]string{"class-onchain-conflicts"}, oc.labels...)}
+			if t == 3 {
+				// No common signer: A is as good as any other transaction. Its sender must be able to pay for it next
+				// to whatever B spends for the same sender (no action of the grammar costs more than about 1000 GAS).
+				m.expB = vEither
+				if w.balOf[oc.A.Sender()] > 8000_0000_0000 {
+					m.expB = vAccept
+				}
+			}
+			return m
 		})
+	}
 	withTx("tx-conflict-onchain-rev", "contains T whose Conflicts attribute names a transaction that is already on chain", false, "",
 		func(w *world, cr Corruption) ([]*transaction.Transaction, string) {
 			return []*transaction.Transaction{w.onchainRev}, ""
@@ -647,3 +685,9 @@ func init() {
 
 // validAloneAtN: crafted txs were checked at N when the world was built (the builder has moved on since).
 func (w *world) validAloneAtN(tx *transaction.Transaction) bool { return w.okAtN[tx.Hash()] }
+
+func init() {
+	for _, k := range ocKinds {
+		byKind[k].weight = 2
+	}
+}
